@@ -30,6 +30,7 @@ type Contract struct {
 	Modifies    []string // parameter names whose pointee may be modified
 	ModifiesIdx []int
 	NoCap       bool
+	Keeps       []string // "param.field": the slice field keeps its backing array (it is only re-sliced)
 	Inline      bool
 	Trusted     bool
 	Lemma       bool
@@ -50,6 +51,7 @@ type LoopContract struct {
 	Ord        int
 	Invariants []*Clause
 	Decreases  *Clause
+	Keeps      []*Clause // slice-valued locals/fields that stay re-slices of the array they held at loop entry
 	Exits      []*Clause // must hold whenever the loop is left through its condition (normal exit)
 	Cases      *Clause // case split on a local variable's value at the loop head: cases <local> <lo> <hi>
 	CaseLo     int
@@ -92,7 +94,7 @@ func hasTag(tags []string, p string) bool {
 	return false
 }
 
-var clauseHead = regexp.MustCompile(`^(func|requires|ensures|invariant|decreases|cases|exit|loop|safety|modifies|recv|nocap|inline|trusted|lemma|fresh|allocates|unroll|rec|mathint|slow)(\[[A-Za-z0-9,* ]*\])?(\s+|$)`)
+var clauseHead = regexp.MustCompile(`^(func|requires|ensures|invariant|decreases|cases|exit|loop|safety|modifies|recv|nocap|inline|trusted|lemma|fresh|allocates|unroll|rec|mathint|slow|keeps)(\[[A-Za-z0-9,* ]*\])?(\s+|$)`)
 
 // parseContractFile extracts the //@ blocks of one file.
 func parseContractComments(fset *token.FileSet, f *ast.File) ([]*Contract, error) {
@@ -140,6 +142,17 @@ func parseContractComments(fset *token.FileSet, f *ast.File) ([]*Contract, error
 				}
 				curLoop = n
 				last = nil
+			case "keeps":
+				if curLoop != 0 {
+					cur.rawLoops[curLoop] = append(cur.rawLoops[curLoop], rawClause{kw, tags, rest, line})
+					last = nil
+					break
+				}
+				for _, x := range strings.Split(rest, ",") {
+					if x = strings.TrimSpace(x); x != "" {
+						cur.Keeps = append(cur.Keeps, x)
+					}
+				}
 			case "invariant", "decreases", "cases", "exit":
 				if curLoop == 0 {
 					return nil, fmt.Errorf("line %d: %s outside a loop", line, kw)
@@ -552,6 +565,61 @@ func specVarIndex(ex ast.Expr) (int, bool) {
 	return i, true
 }
 
+// resultAliases: top-level conjuncts `sameSlice(<result>[.field…], E)` of an ensures clause: the named component of
+// the result is the slice E (same array, offset and length) rather than an arbitrary slice.
+type resultAlias struct {
+	res  int
+	path []int
+	rhs  ast.Expr
+}
+
+func (cl *Clause) resultAliases() []resultAlias {
+	if len(cl.Binders) > 0 {
+		return nil
+	}
+	var out []resultAlias
+	var walk func(ex ast.Expr)
+	walk = func(ex ast.Expr) {
+		switch x := ex.(type) {
+		case *ast.ParenExpr:
+			walk(x.X)
+		case *ast.BinaryExpr:
+			if x.Op == token.LAND {
+				walk(x.X)
+				walk(x.Y)
+			}
+		case *ast.CallExpr:
+			id, ok := x.Fun.(*ast.Ident)
+			if !ok || id.Name != "sameSlice" || len(x.Args) != 2 {
+				return
+			}
+			var path []int
+			a := x.Args[0]
+			for {
+				if p, ok := a.(*ast.ParenExpr); ok {
+					a = p.X
+					continue
+				}
+				sel, ok := a.(*ast.SelectorExpr)
+				if !ok {
+					break
+				}
+				s := cl.Info.Selections[sel]
+				if s == nil || s.Kind() != types.FieldVal {
+					return
+				}
+				path = append(append([]int(nil), s.Index()...), path...)
+				a = sel.X
+			}
+			if i, ok := specVarIndex(a); ok && i < cl.nRes {
+				out = append(out, resultAlias{i, path, x.Args[1]})
+			}
+		}
+	}
+	walk(cl.Expr)
+	return out
+}
+
 // resultDef: for a clause of the form `result == E` (single result) returns E.
 func (cl *Clause) resultDef(ct *Contract) ast.Expr {
 	if len(ct.ResultNames) != 1 || len(cl.Binders) > 0 {
@@ -651,6 +719,12 @@ func (e *Engine) bindContract(ct *Contract) error {
 					cl.Label = fmt.Sprintf("inv%d", ni)
 				}
 				lc.Invariants = append(lc.Invariants, cl)
+			} else if rc.kind == "keeps" {
+				cl, err := e.parseClause(ct, rawClause{kind: "cases", text: "len(" + rc.text + ")", line: rc.line}, lc.pos, false, 1)
+				if err != nil {
+					return err
+				}
+				lc.Keeps = append(lc.Keeps, cl)
 			} else if rc.kind == "exit" {
 				cl, err := e.parseClause(ct, rc, lc.pos, false, len(lc.Exits)+1)
 				if err != nil {
